@@ -114,9 +114,9 @@ class SymT(BaseT):
         if isinstance(cond, SymArray):
             cond = cond.raw.item() if cond.size == 1 else None
         if isinstance(cond, SymBool):
+            E.pre.append(cond.e)
             if not cond.v:
                 raise PathAbort("seed violates an assumption")
-            E.pre.append(cond.e)
         elif not cond:
             raise PathAbort("seed violates a concrete assumption")
 
@@ -465,6 +465,25 @@ def explore(func, kwargs, opts):
         first = False
         if status == "abort":
             stats["aborted"] += 1
+            # the seed violated an assumption: ask the solver for a seed that satisfies the assumptions seen so far (together
+            # with the path prefix that led here)
+            if stats["aborted"] <= 12 + 2 * max_paths:
+                bnd = []
+                for vi in E.inputs:
+                    bnd.append(z3.And(E.zv(vi) >= -8, E.zv(vi) <= 8))
+                    if vi in E.positive:
+                        bnd.append(E.zv(vi) >= z3.RealVal("1/16"))
+                base = list(E.pre) + list(E.defs) + list(E.pc)
+                r, m = smt.check(base, "assume-seed", timeout_ms=flip_timeout, want_model=True, bounds=bnd)
+                if r != "sat":
+                    r, m = smt.check(base, "assume-seed", timeout_ms=flip_timeout, want_model=True)
+                if r == "sat":
+                    newseed = dict(seed or {})
+                    for vi in E.inputs:
+                        newseed[terms.VARS[vi]] = smt.model_value(m, E.zv(vi))
+                    work.insert(0, (newseed, None))
+                elif r == "unknown":
+                    complete = False
             continue
         sig = tuple(l.sexpr() for l in E.pc)
         if expect is not None and sig[:len(expect)] != expect:
@@ -483,7 +502,26 @@ def explore(func, kwargs, opts):
         stats["paths"] += 1
         stats["forks"] += len(E.pc)
         values = {terms.VARS[i]: str(E.shadow[i]) for i in E.inputs}
-        paths.append(dict(sig=[s_[:160] for s_ in sig], status=status, detail=detail, obligations=T.obligations,
+        # seed for the float cross-run of this path: a *well-conditioned* point of the path (inputs in [-8, 8], positive inputs
+        # >= 1/16); paths that only exist at extreme scales are not diffed against floats (rounding would dominate)
+        tv_values = values
+        if E.pc and opts.get("validate", True):
+            bnd = []
+            for vi in E.inputs:
+                x = E.zv(vi)
+                bnd.append(z3.And(x >= -8, x <= 8))
+                if vi in E.positive:
+                    bnd.append(x >= z3.RealVal("1/16"))
+            cur = [z3.And(E.zv(vi) >= z3.RealVal(str(E.shadow[vi])) - z3.RealVal("1/1000"), E.zv(vi) <= z3.RealVal(str(E.shadow[vi])) + z3.RealVal("1/1000"))
+                   for vi in E.inputs]
+            moderate = all(abs(E.shadow[vi]) <= 8 and (vi not in E.positive or E.shadow[vi] >= Fraction(1, 16)) for vi in E.inputs)
+            if not moderate:
+                r, mdl = smt.check(list(E.pre) + list(E.defs) + list(E.pc), "tv-seed", timeout_ms=3000, want_model=True, bounds=bnd)
+                if r == "sat":
+                    tv_values = {terms.VARS[vi]: str(smt.model_value(mdl, E.zv(vi))) for vi in E.inputs}
+                else:
+                    tv_values = None
+        paths.append(dict(tv_values=tv_values, sig=[s_[:160] for s_ in sig], status=status, detail=detail, obligations=T.obligations,
                           domain=[(k, str(e)[:160]) for k, e, ok in E.domain][:8], n_domain=len(E.domain), values=values,
                           notes=T.notes, n_inputs=len(E.inputs), n_defs=len(E.defs)))
         # children
@@ -529,9 +567,9 @@ def run_case(func, kwargs, opts):
         tv = dict(runs=0, mismatches=[])
         if opts.get("validate", True):
             for p in paths[:opts.get("validate_paths", 4)]:
-                if p["status"] != "ok":
+                if p["status"] != "ok" or p.get("tv_values") is None:
                     continue
-                Tc, err = run_concrete(func, kwargs, p["values"])
+                Tc, err = run_concrete(func, kwargs, p["tv_values"])
                 tv["runs"] += 1
                 sym = {o["label"]: o["status"] for o in p["obligations"]}
                 for o in Tc.obligations:
@@ -539,7 +577,7 @@ def run_case(func, kwargs, opts):
                     if ss is None:
                         continue
                     if ss.startswith("holds") and o["status"] == "violated":
-                        tv["mismatches"].append(dict(label=o["label"], sym=ss, conc=o["detail"][:300], values=p["values"]))
+                        tv["mismatches"].append(dict(label=o["label"], sym=ss, conc=o["detail"][:300], values=p["tv_values"]))
         res["tv"] = tv
     except CaseTimeout:
         res["error"] = "timeout"
